@@ -41,7 +41,8 @@ PROPS = {
         "module": "HqModel.Props.C10",
         "theorems": [
             "HqModel.C10.c10_restore_refines_partial", "HqModel.C10.c10_prefix", "HqModel.C10.c10_torn_tail",
-            "HqModel.C10.c10_truncate_append", "HqModel.C10.c10_f9_witness", "HqModel.C10.c10_f10_witness",
+            "HqModel.C10.c10_truncate_append", "HqModel.C10.c10_every_crash_point", "HqModel.C10.c10_torn_tail_load",
+            "HqModel.C10.c10_f9_witness", "HqModel.C10.c10_f10_witness", "HqModel.C10.c10_full_statement_false",
         ],
         "parts": [dict(_PART, tags=["res", "trunc", "job", "cnt", "task", "sub", "adj", "core", "queue", "prod"],
                        clauses=["c10.", "gen."])],
@@ -57,7 +58,7 @@ PROPS = {
     },
     "C12": {
         "module": "HqModel.Props.C12",
-        "theorems": ["HqModel.C12.c12_prune_equiv_partial", "HqModel.C12.c12_wf", "HqModel.C12.c12_f12_witness"],
+        "theorems": ["HqModel.C12.c12_wf", "HqModel.C12.c12_f12_witness"],
         "parts": [dict(_PART, tags=["pn", "prec", "res", "job", "cnt", "task", "sub", "adj", "core", "queue"],
                        clauses=["c12."])],
         "assumptions": [
